@@ -10,12 +10,12 @@ SPEC = {
              'nested operations issued from inside event actions) checked online against the reference '
              'queue model refs/evq.py: all sequences up to length L (5 quick / 7 thorough) over a 10-op '
              'pause-centric alphabet after a prefix that moves the clock off zero, enumerated completely '
-             'under the fifo tie policy, then random sequences of length 10-80 under every tie policy, plus generated production lines with dense fault '
+             'under the fifo tie policy, then random sequences of length 10-80 under every tie policy (a quarter with decimal, not exactly representable times and pauses aimed at due instants, some cancelled while paused), plus generated production lines with dense fault '
              'scripts (maintenance pauses, failures cancel, restores resume) with the same queue model attached; '
              'non-trivial = an event was resumed after a pause of non-zero length that began at a '
              'non-zero time and later executed; distinct = by hash of the op list and tie policy'),
     'floors': {'quick': {'resumes_nonzero_pause_nonzero_time': 500, 'dispatches_checked': 5000,
-                         'events_cancelled': 200, 'line_events_resumed': 50, 'line_events_cancelled': 40},
+                         'events_cancelled': 200, 'resumes_rounding_below_now': 5, 'line_events_resumed': 50, 'line_events_cancelled': 40},
                'thorough': {'resumes_nonzero_pause_nonzero_time': 10000, 'dispatches_checked': 100000,
                             'events_cancelled': 5000}},
     'exhaustive_key': 'exhaustive_sequences',
@@ -33,8 +33,10 @@ ALPHABET = [['sched', 1, 1, 5, None], ['sched', 1, 2, 6, None], ['sched', 2, 1, 
 SUFFIX = [['run', 4], ['unpause', 1], ['unpause', 2], ['run', 8]]
 
 
-def one(sh, ops, tie, tie_seed, exhaustive):
+def one(sh, ops, tie, tie_seed, exhaustive, decimal=False):
     case = {'engine': 'evq', 'ops': ops, 'tie': tie, 'tie_seed': tie_seed}
+    if decimal:
+        case['decimal'] = True
     f = engine_evq.run_case(sh, case, 'C07')
     sh.case_done(case, f['nonzero_resumes'] > 0)
     sh.count('exhaustive_sequences' if exhaustive else 'random_sequences')
@@ -53,9 +55,11 @@ def run(sh):
             one(sh, ops, 'fifo', 0, True)
     for i in sh.share(nrand):
         rng = random.Random(core.stable_int(sh.seed, 'C07', i))
-        ops = engine_evq.random_ops(rng, pause_centric=True, aim_pauses=rng.random() < 0.3)
+        decimal = i % 4 == 3
+        ops = engine_evq.random_ops(rng, decimal=decimal, pause_centric=True,
+                                    aim_pauses=decimal or rng.random() < 0.3)
         tie = ties.POLICIES[i % 4]     # prng, fifo, lifo, const
-        one(sh, ops, tie, rng.randrange(1 << 30), False)
+        one(sh, ops, tie, rng.randrange(1 << 30), False, decimal)
     # whole lines: maintenance shutdowns pause, failures cancel, restores resume the machine's events
     from .. import engine_line
     engine_line.run_profile(sh, 'C07', 'faults', 160 if sh.tier == 'quick' else 16000, ('queue',),
